@@ -9,4 +9,5 @@ rm -rf $W/verif
 mkdir -p $W
 cp -r /verif $W/verif
 rm -rf $W/verif/.git
+git -C /verif rev-parse HEAD > $W/BASE
 echo $W
